@@ -668,9 +668,13 @@ class HelicityDecayCPV(HelicityDecay):
     def get_g_ls(self, charge=1):
         gls = self.g_ls(charge)
         if self.ls_index is None:
-            return tf.stack(gls)
-        # print(self, gls, self.ls_index)
-        return tf.stack([gls[k] for k in self.ls_index])
+            ret = tf.stack(gls)
+        else:
+            ret = tf.stack([gls[k] for k in self.ls_index])
+        if self.mask_factor:
+            # as HelicityDecay.get_g_ls: the couplings are applied by the caller
+            return tf.ones_like(ret)
+        return ret
 
     def get_ls_amp(self, data, data_p, **kwargs):
         charge = kwargs.get("all_data", {}).get("charge_conjugation", None)
